@@ -80,6 +80,7 @@ function emittedClasses(parser) {
     }
     const cn = x.constructor && x.constructor.name;
     if (cn && /Runtype$/.test(cn)) out.add(cn);
+    if (cn === "TypeofRuntype" && !["string", "number", "boolean"].includes(x.typeName)) out.add("FunctionRuntype"); // typeof check of a non-JSON kind
     if (typeof x.refName === "string" && typeof x.getNamedRuntypes === "function") {
       try {
         walk(x.getNamedRuntypes()[x.refName], depth + 1);
